@@ -23,6 +23,11 @@ JudgeDecode(e) ==
     /\ SameOutcome(e.out.reader_int, e.out.slice)             \* ... also when reads are interrupted now and then (callers retry)
     /\ e.out.is_reader = e.out.is_slice                       \* detection predicates agree
     /\ e.out.is_reader_int = e.out.is_slice
+    \* a source that delivers a proper prefix and then fails with a hard error: the failure is not more data -- when the
+    \* delivered prefix, read as a slice, is no map (no source map), the reader route yields none either.  (When the prefix
+    \* happens to be a complete document the statement does not say whether the failure is reported: left free.)
+    /\ \A j \in DOMAIN e.out.reader_fail : e.out.prefix_slice[j] = "err" => e.out.reader_fail[j] = "err"
+    /\ \A j \in DOMAIN e.out.is_reader_fail : ~e.out.is_prefix_slice[j] => ~e.out.is_reader_fail[j]
     /\ SameOutcome(e.out.dataurl, e.out.slice)                \* data URL decodes to the same map as its payload
     /\ (DeclErr(e.args.bytes) => e.out.slice.k = "err" /\ ~e.out.is_slice)   \* bare CR rejected on both
     /\ (e.args.valid /\ ~DeclErr(e.args.bytes) /\ (HasHeader(e.args.bytes) => FirstLF(e.args.bytes) # 0)
